@@ -71,6 +71,7 @@ type DaemonScenario struct {
 	Script     []Act         `json:"script,omitempty"`
 	HealAtMs   int64         `json:"heal_at_ms"`
 	BeaconIDs  []string      `json:"beacon_ids,omitempty"` // default: ["default"]
+	OnlyCheckNodeInMemory bool `json:"only_check_node_in_memory,omitempty"` // with backend memdb: only the node whose chain is checked uses the ring
 	FreshIDs   []string      `json:"fresh_ids,omitempty"`  // further chains the daemons hold keys for but never run a key generation of (no group)
 	DKGOnly    bool          `json:"dkg_only,omitempty"`
 	Crash      *CrashPlan    `json:"crash,omitempty"`
@@ -421,7 +422,11 @@ func (e *daemonEngine) schemeFor(id string) string {
 func (e *daemonEngine) newConfig(n *dNode, lg dlog.Logger) *core.Config {
 	e.ctlSeq++
 	engine := chain.BoltDB
-	if e.sc.Backend == "memdb" {
+	mem := e.sc.Backend == "memdb"
+	if mem && e.sc.OnlyCheckNodeInMemory && e.sc.Check != nil && n.idx != e.sc.Check.Node {
+		mem = false // its peers keep the whole chain on disk: they can serve the rounds the ring has forgotten
+	}
+	if mem {
 		engine = chain.MemDB
 	}
 	opts := []core.ConfigOption{
@@ -429,7 +434,7 @@ func (e *daemonEngine) newConfig(n *dNode, lg dlog.Logger) *core.Config {
 		core.WithDkgKickoffGracePeriod(time.Duration(e.sc.KickoffS) * time.Second), core.WithDkgPhaseTimeout(time.Duration(e.sc.PhaseS) * time.Second),
 		core.WithDBStorageEngine(engine), core.WithVerifClock(n.clock),
 	}
-	if e.sc.Backend == "memdb" {
+	if mem {
 		opts = append(opts, core.WithMemDBSize(e.sc.MemSize))
 	}
 	return core.NewConfig(lg, opts...)
